@@ -509,6 +509,16 @@ example (i j : Nat) :
     (AkiRel.append [exKU] _ (by intro e he; simp at he; subst he; decide)) (by decide) (by decide)
     (by set_option maxRecDepth 100000 in decide) (by set_option maxRecDepth 100000 in decide) i j
 
+/-- nothing but the poison / the SCT list, pre-issuer without authority key id: both routes keep the empty `[3]` field (`a3 02 30 00`) -/
+example :
+    buildPrecertTBS (marshalTbs (({ exBase with issuer := ⟨[0x30], [0x31, 0x01, 0x00]⟩ } : Tbs).withExts [exPoison])) (some { exPre with aki := none })
+      = removeExt sctOid (marshalTbs (({ exBase with issuer := exPre.issuer } : Tbs).withExts [exSct])) ∧
+    removeExt sctOid (marshalTbs (({ exBase with issuer := exPre.issuer } : Tbs).withExts [exSct]))
+      = some (marshalTbs (({ exBase with issuer := exPre.issuer } : Tbs).withExts [])) ∧
+    (marshalTbs (({ exBase with issuer := exPre.issuer } : Tbs).withExts [])).drop
+      ((marshalTbs (({ exBase with issuer := exPre.issuer } : Tbs).withExts [])).length - 4) = [0xa3, 0x02, 0x30, 0x00] := by
+  set_option maxRecDepth 100000 in decide
+
 /-- replace case: precertificate issued by the pre-issuer (issuer name `30 02 31 01`… here `30 00`-style stand-in, AKI key id 07),
 final certificate issued by the pre-issuer's issuer (AKI key id 09) -/
 example :
